@@ -4,9 +4,11 @@ p="$1"; patch="$2"; shift 2
 cd /verif
 git -C /repo apply --check "$patch" 2>/dev/null || { echo "$p: patch does not apply"; exit 3; }
 git -C /repo apply "$patch"
+mkdir -p /verif/work/evsave; for c in $p "$@"; do cp /verif/evidence/$c.json /verif/work/evsave/ 2>/dev/null; done
 for c in $p "$@"; do
   s=$(date +%s); out=$(./check $c 2>&1); rc=$?
   echo "$c rc=$rc $(( $(date +%s) - s ))s | $(echo "$out" | grep VIOLATION | head -1) | $(echo "$out" | tail -1 | cut -c1-160)"
 done
 git -C /repo checkout -- .
+for c in $p "$@"; do cp /verif/work/evsave/$c.json /verif/evidence/ 2>/dev/null; done
 git -C /repo status --short | head -3
